@@ -717,6 +717,8 @@ def _native_str_method(ex, obj, name, args, kwargs, node):
         if z3.is_true(unchanged_front) or lst.arr.eq(arr0):
           return VStr(z3.If(n == 1, last, z3.Concat(pre, sep, last)))
     raise OutOfSubset('join of this native list', node)
+  if name == 'format':
+    return VStr(ex.path.fresh_const('fmt', z3.StringSort()))   # message text only
   raise OutOfSubset(f'native str.{name}', node)
 
 
